@@ -17,6 +17,23 @@ CHECKS = {
              "Overlap.construct_array_contraction of /repo on every run. The 1e-8 accuracy clause is decided on the "
              "generated inputs only.",
         design="5 C01", technique="Coq proof (induction over the recursion) + model/implementation correspondence"),
+    "C06": dict(
+        text="Coq theorems over any field, every assignment of values to the bilinear symbols G(o1,o2) = sum_ab P_ab "
+             "d^o1 phi_a d^o2 phi_b, EVERY order triple (induction, no bound): the Leibniz double-binomial sum is the "
+             "iterated product rule; the l_x <= L_x/2 factor-2 shortcut of evaluate_deriv_density equals it for a "
+             "symmetric matrix; gradient / Laplacian / Hessian / general-KED models equal the generic derivatives, the "
+             "Hessian is symmetric with trace the Laplacian; over R: density and posdef KED >= 0 for a PSD matrix; over Q: "
+             "the clip rule (0 iff -thr <= x < 0, error iff x < -thr, else x; array form via the minimum). The formulas "
+             "the CURRENT density.py computes are re-derived on every run by executing it on symbolic stubs "
+             "(harness/trace_density.py -> coq/Gen/DensityTrace.v) and proved by complete enumeration in Coq (all 125 order "
+             "triples (0..4)^3 x both back-end flags, vm_compute) to equal the definitions modulo G(a,b)=G(b,a), incl. "
+             "that the direct back-end is only asked for orders <= 2 and that the threshold is applied to the returned "
+             "quantity. The seven public functions are compared on every run with an independent exact evaluator of the "
+             "defining sums (tolerance 1e-9 x sum of |terms|), thresholds bracketing the most negative value. Rounding of "
+             "the NumPy pipeline is decided on the generated inputs only; normalisation constants and the spherical "
+             "transform are taken from gbasis (C01/C05/C10).",
+        design="5 C06", technique="Coq proof (induction; reflection by vm_compute on traced formulas) + trace translator "
+                                  "+ numeric correspondence with an exact evaluator"),
 }
 NOT_YET = {}
 
